@@ -35,19 +35,11 @@ func runC12(c *Ctx) {
 		}
 	}
 	sk := fk(si)
-	var wcs []*ssa.Call
-	EachInstr(runAsync, func(in ssa.Instruction) {
-		if cl, ok := in.(*ssa.Call); ok && MatchCC(&cl.Call, sWithCancel) {
-			wcs = append(wcs, cl)
-		}
-	})
-	if len(wcs) != 2 {
-		c.Anchor("O12.1", "the two context.WithCancel calls of runAsync (run context, start context)")
+	wcOf := withCancelByHandleField(runAsync)
+	runWC, startWC := wcOf["runCancel"], wcOf["instanceStartCancel"]
+	if runWC == nil || startWC == nil {
+		c.Anchor("O12.1", "the context.WithCancel calls of runAsync whose cancel functions are stored in the handle fields runCancel and instanceStartCancel")
 		return
-	}
-	runWC, startWC := wcs[0], wcs[1]
-	if !DerivesOnly(startWC.Call.Args[0], false, IsResultOf(runWC, 0)) {
-		runWC, startWC = wcs[1], wcs[0]
 	}
 	isStartCtx := func(v ssa.Value) bool { return DerivesOnly(v, false, IsResultOf(startWC, 0)) }
 	isRunCtx := func(v ssa.Value) bool { return DerivesOnly(v, false, IsResultOf(runWC, 0)) }
